@@ -113,3 +113,26 @@ def protection_direct(result):
                     if ty in SECRET_ATTRS and (data is not None or ln is not None):
                         out.append(("secret-revealed", "attribute 0x%x of protected key %s answered len=%s data=%s (op `%s`)" % (ty, h, ln, data, " ".join(op)[:120])))
     return out
+
+
+def samevalues_direct(result):
+    """`nop samevalues` followed by two C_GetAttributeValue calls of the same attribute list on two objects (a wrapped key and what C_UnwrapKey made of its blob):
+    the two answers must be identical (return code, every length, every byte) - 'unwrapping what C_WrapKey produced yields a key of the same type and value'."""
+    out = []
+    pend = None
+    for op, res in iter_ops(result):
+        if op[:2] == ["nop", "samevalues"]:
+            pend = []; continue
+        if pend is not None and op[0] == "getattr":
+            pend.append((op, res))
+            if len(pend) == 2:
+                (o1, r1), (o2, r2) = pend
+                e1, e2 = getattr_entries(o1, r1), getattr_entries(o2, r2)
+                if r1[0] != r2[0] or e1 != e2:
+                    diff = [("%x" % a[0]) for a, b in zip(e1, e2) if a != b] or ["rv"]
+                    out.append(("unwrapped-value-differs." + "-".join(diff), "the unwrapped key does not carry the value of the wrapped key: attributes %s differ\n  source: %s\n  unwrapped: %s"
+                                % (diff, " ".join(r1)[:700], " ".join(r2)[:700])))
+                pend = None
+        elif pend is not None and op[0] != "getattr":
+            pend = None
+    return out
